@@ -31,6 +31,62 @@ pub fn canon(p: &Program) -> Program {
 }
 
 /// Removes every debug name (what a felt round trip is expected to lose).
+/// Debug info compared as maps (a JSON object does not keep the order of its entries).
+fn same_debug_info(a: Option<&cairo_lang_sierra::debug_info::DebugInfo>, b: &cairo_lang_sierra::debug_info::DebugInfo) -> bool {
+    let Some(a) = a else { return false };
+    fn sorted<K: Clone + Ord, V: Clone + Ord>(m: impl Iterator<Item = (K, V)>) -> Vec<(K, V)> {
+        let mut v: Vec<(K, V)> = m.collect();
+        v.sort();
+        v
+    }
+    sorted(a.type_names.iter().map(|(k, v)| (k.id, v.to_string()))) == sorted(b.type_names.iter().map(|(k, v)| (k.id, v.to_string())))
+        && sorted(a.libfunc_names.iter().map(|(k, v)| (k.id, v.to_string()))) == sorted(b.libfunc_names.iter().map(|(k, v)| (k.id, v.to_string())))
+        && sorted(a.user_func_names.iter().map(|(k, v)| (k.id, v.to_string()))) == sorted(b.user_func_names.iter().map(|(k, v)| (k.id, v.to_string())))
+}
+
+/// Removes the debug names `DebugInfo` does not record: those of user types and of variables.
+fn strip_untracked(p: &Program) -> Program {
+    let mut q = p.clone();
+    fn args(a: &mut [GenericArg]) {
+        for x in a {
+            if let GenericArg::UserType(u) = x {
+                u.debug_name = None;
+            }
+        }
+    }
+    for t in &mut q.type_declarations {
+        args(&mut t.long_id.generic_args);
+    }
+    for l in &mut q.libfunc_declarations {
+        args(&mut l.long_id.generic_args);
+    }
+    for s in &mut q.statements {
+        match s {
+            Statement::Invocation(i) => {
+                for a in &mut i.args {
+                    a.debug_name = None;
+                }
+                for b in &mut i.branches {
+                    for r in &mut b.results {
+                        r.debug_name = None;
+                    }
+                }
+            }
+            Statement::Return(v) => {
+                for a in v {
+                    a.debug_name = None;
+                }
+            }
+        }
+    }
+    for f in &mut q.funcs {
+        for prm in &mut f.params {
+            prm.id.debug_name = None;
+        }
+    }
+    q
+}
+
 pub fn strip(p: &Program) -> Program {
     let mut q = p.clone();
     fn strip_args(args: &mut [GenericArg]) {
@@ -135,6 +191,34 @@ fn check_program(ctx: &mut Ctx, name: &str, p: &Program, compilable: bool) {
             let p2 = vp2.into_v1().unwrap().program;
             if p2 != *p || p2.to_string() != p.to_string() {
                 ctx.violation("json:differs", "VersionedProgram JSON round trip yields a different program", case("json"));
+            }
+        }
+    }
+    // --- json with debug info: the artifact round-trips, and the extracted debug names put back onto the
+    // name-stripped program give the original program
+    {
+        use cairo_lang_sierra::debug_info::DebugInfo;
+        let di = DebugInfo::extract(p);
+        let vp = VersionedProgram::v1(ProgramArtifact::stripped(p.clone()).with_debug_info(di.clone()));
+        match serde_json::to_string(&vp).map_err(|e| e.to_string()).and_then(|s| serde_json::from_str::<VersionedProgram>(&s).map_err(|e| e.to_string())) {
+            Err(e) => ctx.violation("json:debug-info-roundtrip-fails", format!("serde_json round trip of the artifact with debug info fails: {e}"), case("json+debug-info")),
+            Ok(vp2) => {
+                let a2 = vp2.into_v1().unwrap();
+                if a2.program != *p {
+                    ctx.violation("json:debug-info-program-differs", "JSON round trip of the artifact with debug info yields a different program", case("json+debug-info"));
+                } else if !same_debug_info(a2.debug_info.as_ref(), &di) {
+                    let d2 = a2.debug_info.clone().unwrap_or_default();
+                    let what = format!("types {} vs {}, libfuncs {} vs {}, funcs {} vs {}; first type entry {:?} vs {:?}", di.type_names.len(), d2.type_names.len(), di.libfunc_names.len(), d2.libfunc_names.len(), di.user_func_names.len(), d2.user_func_names.len(), di.type_names.iter().next(), d2.type_names.iter().next());
+                    ctx.violation("json:debug-info-differs", format!("JSON round trip of the artifact yields different debug info: {what}"), case("json+debug-info"));
+                } else {
+                    let mut stripped = strip(p);
+                    di.populate(&mut stripped);
+                    let (a, b) = (strip_untracked(&stripped).to_string(), strip_untracked(p).to_string());
+                    if a != b {
+                        let first = a.lines().zip(b.lines()).find(|(x, y)| x != y).map(|(x, y)| format!("{x:?} vs {y:?}")).unwrap_or_default();
+                        ctx.violation("debug-info:populate-differs", format!("extracting the debug names, stripping all names and populating them again does not give the original program text (user-type and variable names, which debug info does not record, aside): {first}"), case("debug-info"));
+                    }
+                }
             }
         }
     }
@@ -682,7 +766,7 @@ fn run(ctx: &mut Ctx) {
 pub static C18: CheckDef = CheckDef {
     id: "C18",
     level: "exploration",
-    rule: "[format lattice extended by ladders: ids of every kind with numeric values at 0/1/254..257/65535/65536/2^32±/2^63/u64::MAX; programs with 0..300 statements, generic args, parameters, declarations and branch targets to the last statement; names of 1..100 characters around the 31-character short-string limit; values 2^k and 2^k±1 (k = 7..256) of both signs, P, P±1, 2P, -P] [thorough also: the Sierra generated for every corpus snippet (e2e + wrappers + hand-written + divergence family + examples/bug_samples files) under the 5 corner front-end configurations, deduplicated] [also over every compiling wrapper program of the C14 instantiation lattice (~960 quick), none of which the compiler produces] Complete pass over (a) every parseable corpus Sierra program (e2e sierra_code sections + *.sierra files; quick: <=400 statements) and the Sierra the compiler generates for examples/ (debug-name ids), and (b) a programmatically built format lattice: every GenericArg kind x 10 boundary values / 24 id spellings (numeric, 1..70 chars, containing :: <> [] @ , digits) in a type and a libfunc declaration x declared-type-info combinations; every id style x statement shape (0/1/3 branches, fallthrough/explicit, 0..3 args/results, empty return, function without params). Oracles: parse(display(s)) succeeds, display is a fixpoint, parsed program isomorphic (equal canonical shape; equal ids on the lattice); serde_json VersionedProgram round trip equal; extract_sierra_program(ContractClass::new(canon(s))) == canon(s) minus debug names; CASM text of s, canon(s), name-stripped s, text- and felt-round-tripped s byte-identical (or all rejected). distinct_nontrivial = distinct program texts.",
+    rule: "[format lattice extended by ladders: ids of every kind with numeric values at 0/1/254..257/65535/65536/2^32±/2^63/u64::MAX; programs with 0..300 statements, generic args, parameters, declarations and branch targets to the last statement; names of 1..100 characters around the 31-character short-string limit; values 2^k and 2^k±1 (k = 7..256) of both signs, P, P±1, 2P, -P] [thorough also: the Sierra generated for every corpus snippet (e2e + wrappers + hand-written + divergence family + examples/bug_samples files) under the 5 corner front-end configurations, deduplicated] [also over every compiling wrapper program of the C14 instantiation lattice (~960 quick), none of which the compiler produces] Complete pass over (a) every parseable corpus Sierra program (e2e sierra_code sections + *.sierra files; quick: <=400 statements) and the Sierra the compiler generates for examples/ (debug-name ids), and (b) a programmatically built format lattice: every GenericArg kind x 10 boundary values / 24 id spellings (numeric, 1..70 chars, containing :: <> [] @ , digits) in a type and a libfunc declaration x declared-type-info combinations; every id style x statement shape (0/1/3 branches, fallthrough/explicit, 0..3 args/results, empty return, function without params). Oracles: parse(display(s)) succeeds, display is a fixpoint, parsed program isomorphic (equal canonical shape; equal ids on the lattice); serde_json VersionedProgram round trip equal, also with the extracted DebugInfo attached (program equal, debug info equal as maps), and DebugInfo::extract -> strip all names -> populate gives the original text up to user-type and variable names; extract_sierra_program(ContractClass::new(canon(s))) == canon(s) minus debug names; CASM text of s, canon(s), name-stripped s, text- and felt-round-tripped s byte-identical (or all rejected). distinct_nontrivial = distinct program texts.",
     assumptions: &["Program equality is id-based (debug names ignored), as defined by the crate", "lattice programs need not be valid Sierra: only serialization is exercised on them"],
     run,
     stack_mb: 16,
